@@ -82,6 +82,24 @@ func (e *Exec) RunFunction(fn *ssa.Function) (err error) {
 	}
 	e.execFunc(fr, st)
 	if c := e.contractOf(fn); c != nil {
+		for i, os := range c.OnStores {
+			lbl := os.Label
+			if lbl == "" {
+				lbl = fmt.Sprint(i + 1)
+			}
+			if e.clauseUsed[os.Field+":"+lbl] == 0 {
+				return fmt.Errorf("out of subset: on-store clause %s:%s applies at no store of %s", os.Field, lbl, FuncName(fn))
+			}
+		}
+		for i, oc := range c.OnCalls {
+			lbl := oc.Label
+			if lbl == "" {
+				lbl = fmt.Sprint(i + 1)
+			}
+			if e.clauseUsed["call:"+oc.Callee+":"+lbl] == 0 {
+				return fmt.Errorf("out of subset: on-call clause %s:%s applies at no call in %s", oc.Callee, lbl, FuncName(fn))
+			}
+		}
 		for _, ns := range c.NoStores {
 			if !e.noStoreHit[ns] {
 				// no store to the field on any explored path: discharged structurally
